@@ -41,7 +41,26 @@ pub mod k {
         if x < 0.0 && y != 0.0 {
             kani::assume(r > PI / 2.0 || r < -PI / 2.0);
         }
+        // octant: |y| <= |x| (x > 0) keeps the angle within 45 degrees of the x axis, etc.
+        let ay = if y < 0.0 { -y } else { y };
+        let ax = if x < 0.0 { -x } else { x };
+        let ar = if r < 0.0 { -r } else { r };
+        if ax.is_finite() && ay.is_finite() && (ax > 0.0 || ay > 0.0) {
+            if x > 0.0 && ay <= ax { kani::assume(ar <= PI / 4.0 + 1e-9); }
+            if x > 0.0 && ay >= ax { kani::assume(ar >= PI / 4.0 - 1e-9); }
+            if x < 0.0 && ay <= ax { kani::assume(ar >= 3.0 * PI / 4.0 - 1e-9); }
+            if x < 0.0 && ay >= ax { kani::assume(ar <= 3.0 * PI / 4.0 + 1e-9); }
+        }
         kani::assume(r == 0.0 || r >= 0.000244140625 || r <= -0.000244140625);
+        r
+    }
+
+    /// libm::round by contract (only used by Display impls): |r - x| <= 0.5, NaN iff NaN
+    pub fn round_stub(x: f64) -> f64 {
+        let r: f64 = kani::any();
+        if x.is_nan() { kani::assume(r.is_nan()); return r; }
+        if x.is_infinite() { return x; }
+        kani::assume(r >= x - 0.5 && r <= x + 0.5);
         r
     }
 
